@@ -1759,9 +1759,10 @@ impl Planner {
         agg.aggregates.iter().all(|agg_expr| {
             match agg_expr.function {
                 LogicalAggregateFunction::Count | LogicalAggregateFunction::CountNonNull => {
-                    // COUNT(*) is always OK, COUNT(var) is OK
-                    agg_expr.expression.is_none()
-                        || matches!(&agg_expr.expression, Some(LogicalExpression::Variable(_)))
+                    // COUNT(*) is always OK, COUNT(var) is OK; COUNT(DISTINCT ..) needs the rows
+                    !agg_expr.distinct
+                        && (agg_expr.expression.is_none()
+                            || matches!(&agg_expr.expression, Some(LogicalExpression::Variable(_))))
                 }
                 LogicalAggregateFunction::Sum
                 | LogicalAggregateFunction::Avg
